@@ -31,6 +31,7 @@ Simplifications, each harmless for what is observed:
 * where Go panics the model returns `Res.panic` (`types.Cast[types.Map](nil)` inside `extract`).
 -/
 import Uniflow.Model.Value
+import Uniflow.Model.CodecNum
 
 namespace Uniflow.Store
 open Uniflow.Value
@@ -404,11 +405,64 @@ end
 
 /-! ## sort, skip, limit (`store.Find`) -/
 
-/-- `order := 1; _ = types.Unmarshal(o, &order)` – integers only are generated -/
-def orderOf : Val → Int
+/-! `order := 1; _ = types.Unmarshal(o, &order)` in the comparator of `Find`: the direction operand is decoded into a Go
+`int` by the codec of pkg/types (the leaf decoders of an integer target, Model/Codec.lean `leavesInt` – the tie is
+`C10.dirOf_is_int_decoder`), and a decoding error is *ignored*, leaving `order = 1`:
+
+    Int … Int64        the value
+    Uint … Uint64      `int(u)`: two's complement (`Uint64(MaxUint64)` is -1)
+    Float32 / Float64  `int(f)`: truncation toward zero (`-2.5` ↦ -2, `0.9` ↦ 0). NaN, ±Inf and magnitudes ≥ 2^63 are
+                       implementation-defined in Go; amd64 yields MinInt64 (modelled so, never generated: the product
+                       `comp * order` then overflows and the comparator is not an order)
+    String             `strconv.Atoi`: optional sign and decimal digits within int64; anything else is an error ⇒ 1
+    anything else      unsupported type ⇒ 1 (nil, booleans, binaries, lists, maps) -/
+
+def minInt64 : Int := -9223372036854775808
+
+/-- two's complement reading of a 64-bit pattern -/
+def wrap64 (v : Nat) : Int :=
+  if v % 18446744073709551616 < 9223372036854775808 then (v % 18446744073709551616 : Nat)
+  else ((v % 18446744073709551616 : Nat) : Int) - 18446744073709551616
+
+def inInt64 (v : Int) : Bool := decide (minInt64 ≤ v) && decide (v < 9223372036854775808)
+
+/-- `int64(float64(f))` for a float32 pattern: magnitude truncated (`none` for NaN / ±Inf) -/
+def intOfF32 (b : Nat) : Option Int :=
+  let ex := (b / 8388608) % 256
+  let m := b % 8388608
+  let mag : Option Nat :=
+    if ex = 255 then none
+    else if ex < 127 then some 0
+    else if ex - 127 ≥ 23 then some ((8388608 + m) * 2 ^ (ex - 127 - 23)) else some ((8388608 + m) / 2 ^ (23 - (ex - 127)))
+  mag.map fun mag => if (b / 2147483648) % 2 = 1 then -(mag : Int) else (mag : Int)
+
+def floatDir : Option Int → Int
+  | some i => if inInt64 i then i else minInt64
+  | none => minInt64
+
+def digitsOf : Bytes → Option Nat
+  | [] => none
+  | ds => ds.foldl (fun acc d => acc.bind fun n => if 48 ≤ d ∧ d ≤ 57 then some (n * 10 + (d - 48)) else none) (some 0)
+
+/-- `strconv.Atoi` -/
+def atoiDir (s : Bytes) : Option Int :=
+  match s with
+  | 45 :: r => (digitsOf r).map fun n => -(n : Int)
+  | 43 :: r => (digitsOf r).map fun n => (n : Int)
+  | r => (digitsOf r).map fun n => (n : Int)
+
+/-- the direction a sort operand decodes to -/
+def dirOf : Val → Int
   | .int _ v => v
-  | .uint _ v => v
+  | .uint _ v => wrap64 v
+  | .f64 b => floatDir (Uniflow.Codec.intOfF64 b)
+  | .f32 b => floatDir (intOfF32 b)
+  | .str s => match atoiDir s with
+    | some v => if inInt64 v then v else 1
+    | none => 1
   | _ => 1
+
+def orderOf (v : Val) : Int := dirOf v
 
 /-- the comparator of `slices.SortFunc` in `Find`: first sort field (in the sort map's `Range` order) on which the
 documents differ, times its order -/
@@ -420,9 +474,12 @@ def sortCmp (x y : PList) : PList → Int
 
 def insertDoc (spec : PList) (d : PList) : List PList → List PList
   | [] => [d]
-  | e :: es => if sortCmp d e spec < 0 then d :: e :: es else e :: insertDoc spec d es
+  | e :: es => if sortCmp d e spec ≤ 0 then d :: e :: es else e :: insertDoc spec d es
 
-/-- stable insertion sort under `sortCmp` -/
+/-- stable insertion sort under `sortCmp`: `foldr` inserts each document in front of the documents after it that do
+not have to precede it, so documents that tie keep their scan order – in particular a direction that decodes to 0 (every
+pair ties) leaves the scan order untouched, as Go's `slices.SortFunc` does for the ≤ 12 elements of insertion sort
+(longer inputs with ties: any order; the harness's histories hold at most 7 documents) -/
 def sortDocs (spec : PList) (docs : List PList) : List PList :=
   docs.foldr (insertDoc spec) []
 
